@@ -95,41 +95,43 @@ Definition viewport_ts (orig_ts : ts) (x y : Q) (vb : option viewbox) (size : qs
 (* the clip rectangle of the new viewport, in the coordinate system of the clip group *)
 Definition clip_rect (x y : Q) (size : qsize) : qrect := {| rx := x; ry := y; rw := sw size; rh := sh size |}.
 
-(* size of a `use` that references a symbol (use_node.rs convert): the width attribute is first stored in the
-   state's view box and then resolved AGAINST THAT BOX again by use_node_size (viewbox_transform, get_clip_rect) *)
+(* size of a `use` that references a symbol (use_node.rs convert): since 72e1d38 viewbox_transform / get_clip_rect
+   resolve the use's width / height against the ORIGINAL view box (`state`), once *)
 Inductive slen := LAbs (v : Q) | LPct (p : Q).
 Definition resolve_len (l : slen) (base : Q) : Q :=
   match l with LAbs v => v | LPct p => base * p / 100 end.
 Definition symbol_use_side (vp : Q) (l : option slen) : Q :=
   match l with
-  | Some v => let vb := resolve_len v vp in resolve_len v vb
-  | None => vp                                      (* default 100% of the unchanged box *)
+  | Some v => resolve_len v vp
+  | None => resolve_len (LPct 100) vp               (* default 100% *)
   end.
-(* what the expansion / the specification use: the attribute resolved once against the viewport *)
+(* what the expansion / the specification use *)
 Definition spec_use_side (vp : Q) (l : option slen) : Q :=
   match l with Some v => resolve_len v vp | None => vp end.
-Definition slen_relative (l : option slen) : bool := match l with Some (LPct _) => true | _ => false end.
 
-(* nested svg element (converter.rs convert_element -> convert_group, then use_node.rs convert_svg ->
-   convert_children -> convert_group on the same element): its group-forming style and its transform attribute
-   are read twice.  `clip` = the viewport clip path when there is one. *)
+(* nested svg element: converter.rs convert_element wraps it in convert_group (its own style and transform attribute,
+   dissolved when nothing requires it); use_node.rs convert_svg (since fb5447a) only sets up the viewport: an
+   optional clip group with the identity transform, then convert_svg_children = a plain group carrying new_ts unless
+   that is the identity.  `clip` = the viewport clip path when there is one. *)
 Definition clip_only (c : N) : gstyle :=
   {| g_opacity := 1; g_blend := 0%N; g_isolate := false; g_clip := Some c; g_mask := None; g_filter := [] |}.
+Definition svg_children (new_ts : ts) (kids : list tnode) : list tnode :=
+  if ts_is_identity new_ts then kids else [TGroup 0%N new_ts plain kids].
 Definition convert_nested_svg (t_attr : ts) (st : gstyle) (new_ts : ts) (clip : option N) (kids : list tnode)
   : list tnode :=
   group_or_splice E_Svg 0%N t_attr (ts_is_identity t_attr) st
     match clip with
-    | Some c => [TGroup 0%N t_attr (clip_only c)
-                   (group_or_splice E_Svg 0%N new_ts (ts_is_identity new_ts) st kids)]
-    | None => let t := ts_concat t_attr new_ts in group_or_splice E_Svg 0%N t (ts_is_identity t) st kids
+    | Some c => [TGroup 0%N ts_identity (clip_only c) (svg_children new_ts kids)]
+    | None => svg_children new_ts kids
     end.
-(* its expansion: (clip group with the element's transform) around one group with the element's style *)
+(* its expansion: a group with the element's style and transform, the viewport clip group, the viewport transform *)
 Definition expand_nested_svg (t_attr : ts) (st : gstyle) (new_ts : ts) (clip : option N) (kids : list tnode)
   : list tnode :=
-  match clip with
-  | Some c => [TGroup 0%N t_attr (clip_only c) [TGroup 0%N new_ts st kids]]
-  | None => [TGroup 0%N (ts_concat t_attr new_ts) st kids]
-  end.
+  [TGroup 0%N t_attr st
+     match clip with
+     | Some c => [TGroup 0%N ts_identity (clip_only c) [TGroup 0%N new_ts plain kids]]
+     | None => [TGroup 0%N new_ts plain kids]
+     end].
 (* accumulated opacity and transform of every leaf *)
 Fixpoint leaves (o : Q) (t : ts) (n : tnode) : list (N * Q * ts) :=
   match n with
